@@ -501,27 +501,23 @@ impl<'a> Gen<'a> {
     /// delivers; or its declared input is a denom its pool does not hold at all.  All of them are to be refused, with the
     /// simulation refusing them too; the intact route is run at the end.
     pub fn op_scenario_broken_route_link(&mut self) {
+        // three pools of its own in a chain uom - uusdc - uusdt - uluna (self-sufficient; pools and outputs pairwise distinct, so
+        // that the simulation must be able to price whatever executes)
+        let tag = self.r.below(1000);
+        let cf = self.creation_funds();
+        let chain = [("uom", "uusdc", "a"), ("uusdc", "uusdt", "b"), ("uusdt", "uluna", "c")];
+        for (x, y, k) in chain.iter() {
+            self.emit(format!("tx u1 {} pm create cp 0 2 {} 6 {} 6 1000000000000000 2000000000000000 0 - bl{}{}", funds_str(&cf), x, y, tag, k));
+            let mut d = vec![coin(50_000_000, *x), coin(50_000_000, *y)]; d.sort_by(|a, b| a.denom.cmp(&b.denom));
+            self.emit(format!("tx u2 {} pm provide o.bl{}{} - - - - -", funds_str(&d), tag, k));
+        }
         let pools = self.pools();
         let live: Vec<_> = pools.iter().filter(|p| !p.total_share.amount.is_zero()).collect();
         if live.is_empty() { return self.op_provide(); }
-        let first = live[self.r.below(live.len() as u64) as usize];
-        let mut cur = first.pool_info.assets[self.r.below(first.pool_info.assets.len() as u64) as usize].denom.clone();
-        let start_denom = cur.clone();
-        let mut ops: Vec<(String, String, String)> = vec![];
-        let mut offer_res = 0u128;
-        let hops = 3 + self.r.below(2) as usize;
-        for k in 0..hops {
-            let fresh: Vec<_> = live.iter().filter(|p| p.pool_info.assets.iter().any(|a| a.denom == cur) && !ops.iter().any(|o| o.2 == p.pool_info.pool_identifier)).collect();
-            let any: Vec<_> = live.iter().filter(|p| p.pool_info.assets.iter().any(|a| a.denom == cur)).collect();
-            let cands = if fresh.is_empty() { any } else { fresh };
-            if cands.is_empty() { break; }
-            let p = cands[self.r.below(cands.len() as u64) as usize];
-            let outs: Vec<_> = p.pool_info.assets.iter().filter(|a| a.denom != cur).collect();
-            let out = outs[self.r.below(outs.len() as u64) as usize].denom.clone();
-            if k == 0 { offer_res = p.pool_info.assets.iter().find(|a| a.denom == cur).unwrap().amount.u128(); }
-            ops.push((cur.clone(), out.clone(), p.pool_info.pool_identifier.clone()));
-            cur = out;
-        }
+        let start_denom = "uom".to_string();
+        let ops: Vec<(String, String, String)> = chain.iter().map(|(x, y, k)| (x.to_string(), y.to_string(), format!("o.bl{}{}", tag, k))).collect();
+        if !ops.iter().all(|o| live.iter().any(|p| p.pool_info.pool_identifier == o.2)) { return self.op_route(); }
+        let offer_res = 50_000_000u128;
         if ops.len() < 3 { return self.op_route(); }
         let amt = offer_res / 10_000 + 1;
         let sender = pick_user(self.r);
@@ -560,12 +556,20 @@ impl<'a> Gen<'a> {
     /// `minimum_receive` is set to the quote, a hair below it, and to what a first attempt really delivered — an executed route
     /// must have delivered at least the minimum
     pub fn op_scenario_revisit_min_receive(&mut self) {
+        // two pools of its own on the same pair (self-sufficient): out through A, back through B, out through A again — the
+        // second visit of A is priced by the simulation as if the first had not happened
+        let tag = self.r.below(1000);
+        let cf = self.creation_funds();
+        self.emit(format!("tx u1 {} pm create cp 0 2 uom 6 uusdc 6 0 2000000000000000 0 - rv{}a", funds_str(&cf), tag));
+        self.emit(format!("tx u1 {} pm create cp 0 2 uom 6 uusdc 6 0 2000000000000000 0 - rv{}b", funds_str(&cf), tag));
+        let mut d1 = vec![coin(70_000_000, "uom"), coin(70_000_000, "uusdc")]; d1.sort_by(|a, b| a.denom.cmp(&b.denom));
+        self.emit(format!("tx u2 {} pm provide o.rv{}a - - - - -", funds_str(&d1), tag));
+        self.emit(format!("tx u2 {} pm provide o.rv{}b - - - - -", funds_str(&d1), tag));
         let pools = self.pools();
         let live: Vec<_> = pools.iter().filter(|p| !p.total_share.amount.is_zero() && p.pool_info.assets.len() == 2).collect();
-        if live.is_empty() { return self.op_provide(); }
-        let p = live[self.r.below(live.len() as u64) as usize];
+        let Some(p) = live.iter().find(|p| p.pool_info.pool_identifier == format!("o.rv{}a", tag)) else { return self.op_route() };
+        let Some(back) = live.iter().find(|p| p.pool_info.pool_identifier == format!("o.rv{}b", tag)) else { return self.op_route() };
         let (x, y) = (p.pool_info.assets[0].denom.clone(), p.pool_info.assets[1].denom.clone());
-        let back = live.iter().find(|q| q.pool_info.pool_identifier != p.pool_info.pool_identifier && q.pool_info.assets.iter().any(|c| c.denom == x) && q.pool_info.assets.iter().any(|c| c.denom == y)).unwrap_or(&p);
         let pid = p.pool_info.pool_identifier.clone();
         let bid = back.pool_info.pool_identifier.clone();
         let ops = format!("3 {} {} {} {} {} {} {} {} {}", x, y, pid, y, x, bid, x, y, pid);
@@ -595,9 +599,10 @@ impl<'a> Gen<'a> {
         self.emit(format!("tx u2 {} pm provide o.s{}x - - - - -", funds_str(&d1), tag));
         self.emit(format!("tx u2 {} pm provide o.s{} - - - - -", funds_str(&d2), tag));
         let (long, short) = (format!("o.s{}x", tag), format!("o.s{}", tag));
-        let off = if self.r.chance(1, 2) { short.clone() } else { long.clone() };
-        self.emit(format!("tx {} 0 pm config - - - - {} false - -", owner, off));
         let sender = pick_user(self.r);
+        // (both choices in turn — a scenario seen a handful of times per run must not depend on a coin flip)
+        for off in [short.clone(), long.clone()] {
+        self.emit(format!("tx {} 0 pm config - - - - {} false - -", owner, off));
         // through the long-named pool first, then the short-named one — and the other way round
         self.emit(format!("tx {} {} pm route 2 uom uusdc {} uusdc uusdt {} - - 500000000000000000", sender, funds_str(&[coin(10_000, "uom")]), long, short));
         self.emit(format!("tx {} {} pm route 2 uusdt uusdc {} uusdc uom {} - - 500000000000000000", sender, funds_str(&[coin(10_000, "uusdt")]), short, long));
@@ -605,6 +610,7 @@ impl<'a> Gen<'a> {
         self.emit(format!("tx {} {} pm route 3 uusdt uusdc {} uusdc uusdt {} uusdt uusdc {} - - 500000000000000000", sender, funds_str(&[coin(10_000, "uusdt")]), short, short, short));
         self.emit(format!("tx {} 0 pm config - - - - {} true - -", owner, off));
         self.emit(format!("tx {} {} pm route 2 uom uusdc {} uusdc uusdt {} - - 500000000000000000", sender, funds_str(&[coin(10_000, "uom")]), long, short));
+        }
     }
 
     /// directed scenario for C12 / C04: the pool manager's fee collector is an ordinary account that ALSO trades: it swaps
@@ -1525,18 +1531,23 @@ impl<'a> Gen<'a> {
     /// names that CLOSED position as the one to top up (also the closed part of a partial close): the lock must be refused just
     /// as a direct Expand is — otherwise the user would carry weight without an open position
     pub fn op_scenario_refill_closed_via_pm(&mut self) {
-        let pools = self.pools();
-        let Some(p) = pools.iter().find(|p| !p.total_share.amount.is_zero() && p.pool_info.assets.len() == 2) else { return self.op_provide() };
-        let pi = p.pool_info.clone();
+        // a pool of its own, so that the user has no other position in its LP token (self-sufficient)
         let tag = self.r.below(10_000);
-        let u = pick_user(self.r);
+        let cf = self.creation_funds();
+        self.emit(format!("tx u1 {} pm create cp 0 2 uluna 6 uusdc 6 0 0 0 - rfp{}", funds_str(&cf), tag));
+        let mut d0 = vec![coin(30_000_000, "uluna"), coin(30_000_000, "uusdc")]; d0.sort_by(|x, y| x.denom.cmp(&y.denom));
+        self.emit(format!("tx u1 {} pm provide o.rfp{} - - - - -", funds_str(&d0), tag));
+        let pools = self.pools();
+        let Some(p) = pools.iter().find(|p| p.pool_info.pool_identifier == format!("o.rfp{}", tag) && !p.total_share.amount.is_zero()) else { return self.op_provide() };
+        let pi = p.pool_info.clone();
+        let u = ["u2", "u3", "u4"][self.r.below(3) as usize];
         let mut funds: Vec<Coin> = pi.assets.iter().map(|a| coin((a.amount.u128() / 1000).max(1000), a.denom.clone())).collect();
         funds.sort_by(|x, y| x.denom.cmp(&y.denom));
         let dur = DAY * (1 + self.r.below(30));
         // a locked deposit creating the position, under an identifier of the user's choosing
         self.emit(format!("tx {} {} pm provide {} - - - {} rf{}", u, funds_str(&funds), pi.pool_identifier, dur, tag));
         let id = format!("u-rf{}", tag);
-        let partial = self.r.chance(1, 3);
+        let partial = self.r.chance(1, 4);
         let lp = self.run.h.w.cd(&pi.lp_denom);
         if partial {
             let amt = self.positions().iter().find(|q| q.identifier == id).map(|q| q.lp_asset.amount.u128()).unwrap_or(0);
